@@ -309,7 +309,7 @@ func runTimeRules(prop, rule string) func(p *Program, r *Report) {
 			n++
 			tes := timeEdgesOf(f)
 			// target return sites
-			var targets []*ssa.BasicBlock
+			var targets []retSite
 			for _, s := range errReturnSites(f) {
 				if tr.errName != "" {
 					hit := false
@@ -325,14 +325,14 @@ func runTimeRules(prop, rule string) func(p *Program, r *Report) {
 						}
 					}
 					if hit {
-						targets = append(targets, s.ret.Block())
+						targets = append(targets, s)
 					}
 				}
 			}
 			if tr.errName == "" {
 				for _, ret := range returnsOf(f) {
 					if bv, ok := constBool(ret.Results[tr.okTrue]); ok && bv {
-						targets = append(targets, ret.Block())
+						targets = append(targets, retSite{ret: ret})
 					}
 				}
 			}
@@ -358,9 +358,8 @@ func runTimeRules(prop, rule string) func(p *Program, r *Report) {
 				governed := 0
 				wrong, desc := "", ""
 				for _, te := range tes {
-					live := reachable(f, nil, []edge{te.e})
 					for _, t := range targets {
-						if live[t] {
+						if siteReachable(f, t, []edge{te.e}) {
 							continue
 						}
 						governed++
@@ -381,11 +380,10 @@ func runTimeRules(prop, rule string) func(p *Program, r *Report) {
 				for _, te := range tes {
 					all = append(all, te.e)
 				}
-				cutAll := reachable(f, nil, all)
 				var governed []*ssa.BasicBlock
 				for _, t := range targets {
-					if !cutAll[t] {
-						governed = append(governed, t)
+					if !siteReachable(f, t, all) {
+						governed = append(governed, t.ret.Block())
 					}
 				}
 				r.Check(len(governed) > 0 && twoSidedDecides(f, tes, governed), rule, key+":both-sides", p.Pos(f.Pos()), tr.what, "only one side of the time window is enforced: "+tr.what)
